@@ -1416,7 +1416,7 @@ func (e *Engine) doAlloc(st *State, in *ssa.Alloc) {
 	}
 	if !in.Heap {
 		id := st.newCell(elem)
-		st.set(in, Val{T: in.Type(), L: []Term{I(0)}, P: &PtrInfo{Kind: pkCell, Root: elem, Cell: id}})
+		st.set(in, Val{T: in.Type(), L: []Term{I(int64(-1000000000 - id))}, P: &PtrInfo{Kind: pkCell, Root: elem, Cell: id}})
 		return
 	}
 	ref := st.newRef()
@@ -1460,6 +1460,15 @@ func (e *Engine) doUnOp(st *State, in *ssa.UnOp) {
 	}
 }
 
+// elemAddr: the (non-nil) address of a slice element as a term, so that such
+// pointers compare by (array, index).
+func (st *State) elemAddr(p *PtrInfo) Term {
+	f := st.ctx.declareFun("elemaddr", []string{SInt, SInt}, SInt)
+	t := Term{fmt.Sprintf("(%s %s %s)", f, p.Ref.S, p.Idx.S), SInt}
+	st.assumeOnce(Lt(t, I(-2000000000)))
+	return t
+}
+
 func (e *Engine) doIndexAddr(st *State, in *ssa.IndexAddr) {
 	x := st.get(in.X)
 	idx := st.get(in.Index).term()
@@ -1467,7 +1476,7 @@ func (e *Engine) doIndexAddr(st *State, in *ssa.IndexAddr) {
 	case *types.Slice:
 		st.oblige(in, "index", And(Le(I(0), idx), Lt(idx, x.L[2])), fmt.Sprintf("index of %s in range", instrSubject(in, "index")))
 		p := &PtrInfo{Kind: pkElem, Root: u.Elem(), Ref: x.L[0], Idx: Add(x.L[1], idx)}
-		st.set(in, Val{T: in.Type(), L: []Term{I(0)}, P: p})
+		st.set(in, Val{T: in.Type(), L: []Term{st.elemAddr(p)}, P: p})
 	case *types.Pointer:
 		arr := u.Elem().Underlying().(*types.Array)
 		st.oblige(in, "index", And(Le(I(0), idx), Lt(idx, I(arr.Len()))), "array index in range")
@@ -1475,7 +1484,7 @@ func (e *Engine) doIndexAddr(st *State, in *ssa.IndexAddr) {
 			unsup("index into embedded array")
 		}
 		p := &PtrInfo{Kind: pkElem, Root: arr.Elem(), Ref: x.P.Ref, Idx: idx}
-		st.set(in, Val{T: in.Type(), L: []Term{I(0)}, P: p})
+		st.set(in, Val{T: in.Type(), L: []Term{st.elemAddr(p)}, P: p})
 	default:
 		unsup("indexaddr on %s", x.T)
 	}
